@@ -381,6 +381,8 @@ impl<IO> AsyncConnection<IO> {
         IO: AsyncRead + Unpin,
     {
         let mut response_builder = ResponseBuilder::new(&mut self.0.field_cache);
+        #[cfg(mpd_client_verif)]
+        let mut verif_guard = crate::verif::ReceiveGuard::default();
 
         loop {
             if let Some(response) = response_builder.parse(&mut self.0.recv_buf)? {
@@ -393,7 +395,11 @@ impl<IO> AsyncConnection<IO> {
                 break Ok(Some(response));
             }
 
+            #[cfg(mpd_client_verif)]
+            verif_guard.suspend(response_builder.is_frame_in_progress());
             let read = self.0.io.read_buf(&mut self.0.recv_buf).await?;
+            #[cfg(mpd_client_verif)]
+            verif_guard.resume();
             trace!(read);
 
             if read == 0 {
